@@ -171,6 +171,7 @@ func runC01(c *Ctx) {
 		checkFileLockKind(c, "R16", exportedFileMethods(p, fileT), map[string]bool{"(*File).Read": true, "(*File).Write": true, "(*File).ReadFrom": true, "(*File).WriteTo": true})
 		c.floor("R16", 4)
 	}
+	checkConcurrentCopyOnlyOfRegularFiles(c, "R17")
 	isOffsetField := func(key string) bool { return strings.HasPrefix(key, "fld:") && strings.HasSuffix(key, ".offset") }
 
 	// start offset of a transfer: the `off` parameter of the enclosing File method, or a load of f.offset
